@@ -12,10 +12,10 @@ ANCHORS = ["fm_atomic_sets.py:compute_atomic_sets", "fm_atomic_sets.py:get_atomi
 plan = semops.plan
 
 
-def judge(acc, source, spec, model, idx, sem_t, sem_c, tags, cls, payload):
+def judge(acc, source, spec, model, idx, sem_t, sem_c, tags, cls, payload, op=None):
     from flamapy.metamodels.fm_metamodel.operations import FMAtomicSets
     W = "FMAtomicSets"
-    ok, res = guard(acc, cls, W, tags, payload, lambda: FMAtomicSets().execute(model).get_result())
+    ok, res = guard(acc, cls, W, tags, payload, lambda: (op or FMAtomicSets()).execute(model).get_result())
     if not ok:
         return
     key = S.digest(spec) if S.feature_names(spec)[1:] else None
@@ -51,7 +51,8 @@ def judge(acc, source, spec, model, idx, sem_t, sem_c, tags, cls, payload):
 
 
 def run_shard(desc, acc):
-    semops.run(desc, acc, judge, "C15")
+    from flamapy.metamodels.fm_metamodel.operations import FMAtomicSets
+    semops.run(desc, acc, judge, "C15", FMAtomicSets)
 
 
 def replay(payload, acc):
